@@ -1864,7 +1864,9 @@ export class AnyOfDiscriminatedRuntype extends BaseRuntype {
     const printingContext = this.getPrintingContext(ctx);
     const refTarget = this.getRefTarget(runtype);
     if (refTarget != null) {
-      this.ensureContextualDefinition(refTarget.name, refTarget.target, ctx);
+      // same rule as BaseRefRuntype.schema: a schema override of the named type wins
+      const schemaTarget = printingContext.getNamedTypeSchemaOverride(refTarget.name) ?? refTarget.target;
+      this.ensureContextualDefinition(refTarget.name, schemaTarget, ctx);
       return printingContext.getRef(refTarget.name);
     }
 
